@@ -2,6 +2,8 @@ SPECIFICATION Spec
 CONSTANTS Versions = {1, 2}
   MaxSteps = 4
   ReAddOnRemove = TRUE
+  CachePerFile = FALSE
+  WithRemoval = FALSE
   OnlyRotations = FALSE
   Serialized = TRUE
 INVARIANTS Converges ServedIsValidVersion
